@@ -582,7 +582,7 @@ def U_block1(small_body=2):
     small = leaf_menu(False)
     bodies = [b for b in seqs(small, small_body)]
     handlers = [()] + [(x,) for x in small[:8]]
-    pre_opts = [(), (("match", lit("c")),), (("hook", "g"),)]
+    pre_opts = [(), (("match", lit("c")),), (("hook", "g"),), (("append", "s", lit("cc")),)]
     post_opts = [()] + [(x,) for x in small[:6]] + [(("hook", "h"),)]
     for blk in blocks_over(bodies, handlers, small):
         for pre in pre_opts:
@@ -620,3 +620,30 @@ def enumerate_programs(level):
         yield from U_block1(2)
     if level >= 3:
         yield from U_leaf(3, False)
+
+
+# hand-written ASTs for shapes the generator does not reach (conditional / named breaks, nesting, yields)
+def handwritten():
+    n1 = ("set", "n", ("bin", "+", ("var", "n"), ("num", 1)))
+    AB = ("re", RX_ATOMS["[ab]"])
+    P = []
+    P.append((("loop", None, (("match", AB), n1, ("if", ((("bin", "==", ("var", "n"), ("num", 2)), (("break", None),)),), None))), ("hook", "h"), ("match", lit("c"))))
+    P.append((("loop", None, (("match", AB), n1, ("if", ((("bin", "==", ("var", "n"), ("num", 2)), (("break", None),)),), None))), ("set", "m", ("num", 7)), ("hook", "h"), ("match", lit("c")), ("hook", "g")))
+    P.append((("loop", "outer", (("loop", None, (("append", "s", AB), ("if", ((LAST_B, (("break", "outer"),)),), (("hook", "h"),)))), ("match", lit("x")))), ("hook", "g"), ("match", lit("c"))))
+    P.append((("loop", "outer", (("match", lit("a")), ("loop", None, (("match", lit("b")), n1, ("if", ((("bin", ">", ("var", "n"), ("num", 2)), (("break", "outer"),)), (("bin", "==", ("var", "n"), ("num", 1)), (("break", None),))), None))), ("hook", "h"))), ("finish", "F")))
+    P.append((("foreach", (("match", ("re", q("\\d", "+"))),), (("set", "k", ("bin", "+", ("bin", "*", ("var", "k"), ("num", 10)), ("bin", "-", ("last",), ("char", 48)))), n1)), ("match", lit(";")),
+              ("if", ((("bin", ">", ("var", "k"), ("num", 100)), (("match", lit("big")),)), (("bin", "==", ("var", "n"), ("num", 1)), (("finish", None),))), (("set", "k", ("num", 0)),)), ("hook", "h")))
+    P.append((("loop", None, (("try", (("append", "s", ("re", q("a", "+"))), ("match", lit("b"))), ("outofspace",), (("delete", "s"), ("hook", "h"))), ("match", lit("c")), n1)),))
+    P.append((("try", (("match", lit("a")), ("try", (("append", "s", ("re", q("b", "+"))), ("match", lit("c"))), ("nomatch",), (("hook", "h"), ("match", lit("d")))), ("match", lit("e"))), None, (("hook", "g"), ("finish", "F"))), ("match", lit("f"))))
+    P.append((("append", "s", lit("cc")), ("try", (("match", lit("a")), ("append", "s", lit("b"))), ("outofspace",), (("hook", "h"),)), ("appendc", "s", ("num", 65)), ("hook", "g")))
+    P.append((("try", (("append", "s", lit("cc")), ("try", (("match", lit("a")), ("append", "s", lit("b"))), ("outofspace",), (("hook", "h"),)), ("append", "s", lit("d")), ("hook", "g")), ("outofspace",), (("finish", "F"),)), ("finish", "G")))
+    P.append((("match", lit("a")), ("optional", (("match", lit("b")), ("hook", "h"))), ("optional", (("match", ("re", q("c", "+"))), n1)), ("hook", "g"), ("match", lit("d"))))
+    P.append((("loop", None, (("case", False, ((None, (lit("a"),), (("yield", "Y"),)), (None, (lit("bc"),), (n1, ("yield", "Z"))), (None, ("else",), (("wait", lit("a")),)))),)),))
+    P.append((("loop", None, (("append", "s", AB), ("yield", "Y"), ("hook", "h"), ("optional", (("match", lit("c")), ("yield", "Z"))))),))
+    P.append((("match", lit("a")), ("case", False, ((None, (lit("b"),), (("set", "m", ("last",)), ("hook", "h"))), (None, (("re", q("c", "+")),), (("hook", "g"),)), (None, ("else",), ()))), ("match", lit("d")), ("hook", "h")))
+    P.append((("foreach", (("loop", None, (("match", AB), ("optional", (("match", lit("c")), ("break", None))))),), (("hook", "h"),)), ("match", lit("d"))))
+    P.append((("if", ((("bin", "==", ("var", "n"), ("num", 0)), (("match", lit("a")), n1)),), (("match", lit("b")),)), ("if", ((("bin", "==", ("var", "n"), ("num", 1)), (("hook", "h"),)),), (("hook", "g"),)), ("match", lit("c"))))
+    P.append((("loop", None, (("match", lit("a")), n1, ("if", ((("bin", "==", ("bin", "%", ("var", "n"), ("num", 3)), ("num", 0)), (("hook", "h"),)), (("bin", "==", ("var", "n"), ("num", 5)), (("break", None),))), None))), ("match", lit("b"))))
+    P.append((("setstr", "s", b"xy"), ("match", lit("a")), ("delete", "s"), ("append", "s", ("re", q("b", "+"))), ("hook", "h"), ("match", lit("c"))))
+    P.append((("try", (("loop", None, (("appendc", "s", ("num", 65)), ("match", lit("a")))),), ("outofspace",), (("hook", "h"), ("wait", lit("z")))), ("finish", "F")))
+    return P
